@@ -85,10 +85,10 @@ type customCollator[V any] struct {
 }
 
 func (c *customCollator[V]) GetClass() age.CollatorClassLike[V] { return age.Collator[V]() }
-func (c *customCollator[V]) GetDepth() int                        { return 0 }
-func (c *customCollator[V]) GetMaximum() int                      { return c.base.GetMaximum() }
-func (c *customCollator[V]) CompareValues(a, b V) bool            { return c.base.CompareValues(a, b) }
-func (c *customCollator[V]) RankValues(a, b V) age.Rank           { return rankWith(c.id, c.base, a, b) }
+func (c *customCollator[V]) GetDepth() int                      { return 0 }
+func (c *customCollator[V]) GetMaximum() int                    { return c.base.GetMaximum() }
+func (c *customCollator[V]) CompareValues(a, b V) bool          { return c.base.CompareValues(a, b) }
+func (c *customCollator[V]) RankValues(a, b V) age.Rank         { return rankWith(c.id, c.base, a, b) }
 
 func floorDiv(x, d int64) int64 {
 	q := x / d
@@ -180,7 +180,7 @@ type seqRunner[V any] struct {
 	outHist  map[string]int
 	maxPool  int
 	sizeHist map[int]int
-	trace    []string // human-readable ops for samples / replay
+	trace    []string                  // human-readable ops for samples / replay
 	sorters  map[int]age.SorterLike[V] // sorter instances kept for the whole history (key: ranker id, -1 = default)
 }
 
